@@ -17,3 +17,9 @@ chk("C03", "exploration", "differential reference-model monitor: IndexedSelectEq
 chk("C12", "fault_enumeration", "fault-injection monitor: one-shot I/O error / short read at every page-read position of every operation (verif pager hook), result must be error + prefix",
     "Exhaustive over the read positions 1..R of each operation run (R capped per op in quick tier, reported), two fault kinds, plus lock failure, on several page sizes and tree depths. Faults the reader cannot detect (bit flips) are out of scope of the property.",
     "in-memory pager with the file pager's copy semantics stands in for the file; keys come from a fault-free scan", "DESIGN.md 3 C12")
+chk("C17", "exploration", "runtime monitor on the callback boundary: stop at every row position k (structural positions from a page walker), compare count/prefix/error/lock balance",
+    "All k per result up to a cap (500 quick / 3000 thorough), above it every leaf-last / interior-entry / rightmost-child-first position at every level plus a PRNG sample; for Table.Scan, Index.Scan, ScanMin, ScanRange, ScanEq and SelectDone. Held on the (operation,k) pairs run.",
+    "hooked in-memory pager (lock balance); page walker only chooses positions", "DESIGN.md 3 C17")
+chk("C05", "exploration", "hostile-input runtime monitor: structure-aware corruptions run through every public operation in crash-isolated child workers with logical read/callback budgets, heap limit and watchdog",
+    "Thousands (quick) / hundreds of thousands (thorough) of mutated images over ~30 seed files; every public entry point incl. Row.Scan*, the mmap pager with hostile journals and database/sql on a subset. Held = no panic, fatal error, budget overrun or hang on these images; not memory safety.",
+    "page walker chooses mutation sites; budgets are logical; a watchdog timeout that does not reproduce alone is inconclusive", "DESIGN.md 3 C05")
